@@ -264,11 +264,24 @@ class ParamsGenerator:
         quantization settings.
     """
     for buffer_idx, tensors in self.buffer_to_tensors.items():
-      if len(tensors) <= 1:
-        continue
       # Only constant data can be shared; activations may legitimately receive
       # different quantization from different consumers.
       if self.flatbuffer_model.buffers[buffer_idx].data is None:
+        continue
+      if len(tensors) == 1:
+        # A constant read by one op can still have a second reader: the graph
+        # output. Both must agree on how the single copy of the data is stored.
+        tensor_params = self.model_quant_results[
+            tfl_flatbuffer_utils.get_tensor_name(tensors[0])
+        ]
+        if not _compatible_tensor_transformation_params(
+            tensor_params, tensor_params
+        ):
+          raise RuntimeError(
+              f'The tensor {tensors[0].name} is read by an op and is a graph'
+              ' output, and the two require different quantization settings.'
+              ' Please modify your quantization recipe.'
+          )
         continue
       first_tensor = tensors[0]
       first_tensor_params = self.model_quant_results[
